@@ -130,7 +130,7 @@ pub fn info_c06() -> PropInfo {
     PropInfo {
         id: "C06",
         level: "exploration",
-        rule: "generated successful projects with dependencies (C01 generator plus sources with output sizes 0, 1, 8191, 8192, 8193, 16384, 20000 bytes). After a build: verify must pass and change nothing; then for every output of every processed source and dependency, each single-point tampering (flip / insert / delete one byte at first, middle, last offset; append one byte; append a newline; append a copy of the last line; truncate to 0, 1, mid, len-1; delete the file) must make verify fail while the tampered file keeps bytes, inode and sentinel mtime; restored tree must verify again; option mismatch (trailing-newline flipped) and source edits (appended text line, appended empty directive) are judged against the real build run right after verify on the same tree (verify must pass iff that build leaves every output byte-identical). A CLI sample runs under strace: no output path may be opened for writing, created, renamed or unlinked by txtpp. Non-trivial = a tampering / mismatch / edit actually applied; distinct = distinct (project, output, tamper) triples.",
+        rule: "generated successful projects with dependencies (C01 generator plus sources with output sizes 0, 1, 8191, 8192, 8193, 16384, 20000 bytes). After a build: verify must pass and change nothing; then for every output of every processed source and dependency, each single-point tampering (flip / insert / delete one byte at first, middle, last offset; append one byte; append a newline; append a copy of the last line; truncate to 0, 1, mid, len-1; delete the file) must make verify fail while the tampered file keeps bytes, inode and sentinel mtime; restored tree must verify again; option mismatch (trailing-newline flipped) and source edits (appended text line, appended empty directive) are judged against the real build run right after verify on the same tree (verify must pass iff that build leaves every output byte-identical). A CLI sample runs under strace: no output path may be opened for writing, created, renamed or unlinked by txtpp. Non-trivial = a tampering / mismatch / edit actually applied; distinct = distinct (project, output, tamper) triples. Later additions: dependency outputs tampered while only the top file is verified; outputs that are symbolic links to regular files; a source that comes after another and includes its temp file (temp deleted / temp body edited, slow generator); outputs containing U+FFFD with same-length ill-formed replacements; edits that make the build fail (missing include, unused tag).",
         assumptions: &["the build run right after verify defines 'what a build would write now' (commands are deterministic, D7)", "temp files are not part of the comparison"],
         floor: (1500, 20_000),
         shards: (16, 16),
@@ -629,7 +629,7 @@ pub fn info_c07() -> PropInfo {
     PropInfo {
         id: "C07",
         level: "exploration",
-        rule: "generated projects (successful ones and ones with erroneous directives; temp targets in ../ and sub-directories, multi-line temps, temps after dependency directives; marker commands in about half of the sources). Histories from a tree S0 without generated files: build -> clean (snapshot must equal S0: same file set, bytes, and inode/mtime of every non-generated file; no directory created or removed), clean -> clean, clean without build, build -> delete some generated files -> clean, and for erroneous sources: (failed) build -> clean must succeed, touch nothing but generated paths and run no command. Marker log must not grow during any clean; a CLI sample runs clean under strace: no execve and no file creation by txtpp. Race rounds: 8 sources x 200 temp targets in a sub-directory that contains sources itself, build then recursive 8-thread clean, free-running (files vanish from a directory while another worker walks it). Non-trivial = the build generated at least one file or the project contains an erroneous directive; distinct = distinct (project, history).",
+        rule: "generated projects (successful ones and ones with erroneous directives; temp targets in ../ and sub-directories, multi-line temps, temps after dependency directives; marker commands in about half of the sources). Histories from a tree S0 without generated files: build -> clean (snapshot must equal S0: same file set, bytes, and inode/mtime of every non-generated file; no directory created or removed), clean -> clean, clean without build, build -> delete some generated files -> clean, and for erroneous sources: (failed) build -> clean must succeed, touch nothing but generated paths and run no command. Marker log must not grow during any clean; a CLI sample runs clean under strace: no execve and no file creation by txtpp. Race rounds: 8 sources x 200 temp targets in a sub-directory that contains sources itself, build then recursive 8-thread clean, free-running (files vanish from a directory while another worker walks it). Non-trivial = the build generated at least one file or the project contains an erroneous directive; distinct = distinct (project, history). Later additions: temp targets that are dangling symbolic links (build, clean, clean, build again); temp targets outside the directory txtpp runs in (relative and absolute, absolute inputs from elsewhere); a malformed directive put on top of every source after a successful build; every source named by both of its names in 4-thread clean rounds; CLI clean in six option spellings with a whole-tree comparison; non-UTF-8 names.",
         assumptions: &["inputs are dependency-closed (directory input, recursive): Mode::Clean documents that dependencies are not followed", "generated paths = outputs and temp targets predicted by the reference model; for erroneous sources a superset obtained by scanning for temp directives"],
         floor: (150, 2500),
         shards: (16, 16),
@@ -1155,7 +1155,7 @@ pub fn info_c08() -> PropInfo {
     PropInfo {
         id: "C08",
         level: "fault_enumeration",
-        rule: "generated successful projects; reference tree = build from no generated files. (1) pre-states: every generated path (outputs and temp targets) independently gets one of {absent, same-length garbage, stale text, empty, random text, prefix of the right content cut at 0 / 1 / inside a multi-byte character / middle / len-1, random bytes incl. invalid UTF-8, right content + garbage}, then Build or InMemoryBuild must succeed and reproduce the reference bytes at every generated path; build twice == build once. (2) crash points through the CLI: the build is aborted at every k-th hook event (task spawn/begin/ready/end, poll, receive and the IO points after output creation, before output completion, before temp write) via TXTPP_VERIF=abort-at=k, and killed by SIGKILL (process group) at random offsets while stretched by hook delays; after each crash a plain build must exit 0 and reproduce the reference tree; histories chain up to 3 crashes and an optional source edit. Non-trivial = a pre-state differing from the reference was planted or the crash landed before the build finished; distinct = distinct (project, pre-state assignment | crash point).",
+        rule: "generated successful projects; reference tree = build from no generated files. (1) pre-states: every generated path (outputs and temp targets) independently gets one of {absent, same-length garbage, stale text, empty, random text, prefix of the right content cut at 0 / 1 / inside a multi-byte character / middle / len-1, random bytes incl. invalid UTF-8, right content + garbage}, then Build or InMemoryBuild must succeed and reproduce the reference bytes at every generated path; build twice == build once. (2) crash points through the CLI: the build is aborted at every k-th hook event (task spawn/begin/ready/end, poll, receive and the IO points after output creation, before output completion, before temp write) via TXTPP_VERIF=abort-at=k, and killed by SIGKILL (process group) at random offsets while stretched by hook delays; after each crash a plain build must exit 0 and reproduce the reference tree; histories chain up to 3 crashes and an optional source edit. Non-trivial = a pre-state differing from the reference was planted or the crash landed before the build finished; distinct = distinct (project, pre-state assignment | crash point). Later additions: pre-state rounds under randomly controlled schedules and naming only the top file; edit histories in the same process and directory judged by the model; model-free idempotence over README-ambiguous temp targets; CLI builds with /dev/null and with data on standard input.",
         assumptions: &["D13: generated paths are absent or regular files", "commands deterministic (D7)", "crash = abort()/SIGKILL of the txtpp process group; torn writes inside one write(2) are represented by the prefix pre-states"],
         floor: (300, 5000),
         shards: (16, 16),
@@ -1556,7 +1556,7 @@ pub fn info_c09() -> PropInfo {
     PropInfo {
         id: "C09",
         level: "exploration",
-        rule: "generated successful projects (with dependencies rebuilt in memory and then included) x histories of 1-5 steps over {edit a source, tamper an output, tamper a temp file, delete an output, delete a temp file, build, needed-build, verify}; then the judged step: the pre-state tree is materialised twice at the same path and built once with InMemoryBuild and once with Build: verdicts and every output/temp byte must be equal; every generated file that was already correct before the needed-build keeps inode and sentinel mtime, every stale or missing one is brought up to date; in build and verify mode every already-correct temp file keeps inode and mtime. A CLI sample checks the -N flag mapping under strace (no write-open of an up-to-date output). Non-trivial = the history leaves at least one generated file stale or missing and at least one up to date; distinct = distinct (project, history).",
+        rule: "generated successful projects (with dependencies rebuilt in memory and then included) x histories of 1-5 steps over {edit a source, tamper an output, tamper a temp file, delete an output, delete a temp file, build, needed-build, verify}; then the judged step: the pre-state tree is materialised twice at the same path and built once with InMemoryBuild and once with Build: verdicts and every output/temp byte must be equal; every generated file that was already correct before the needed-build keeps inode and sentinel mtime, every stale or missing one is brought up to date; in build and verify mode every already-correct temp file keeps inode and mtime. A CLI sample checks the -N flag mapping under strace (no write-open of an up-to-date output). Non-trivial = the history leaves at least one generated file stale or missing and at least one up to date; distinct = distinct (project, history). Later additions: outputs of 9 (17, 33) MiB; output paths that are dangling links, links to stale files, or hard links shared with another name; a stale temp file under verify.",
         assumptions: &["sentinel mtimes make a rewrite visible independently of timestamp granularity", "commands deterministic"],
         floor: (150, 3000),
         shards: (16, 16),
@@ -1992,7 +1992,7 @@ pub fn info_c10() -> PropInfo {
     PropInfo {
         id: "C10",
         level: "exploration",
-        rule: "generated projects (successful and failing) with decoy files next to every source and output (x.bak, x~, truncated names, the bare stem, x.txtpp.orig.bak, same names in sub-directories; every decoy name is first checked not to be a txtpp source itself) and outputs of sources that are NOT processed (non-recursive runs, file inputs) pre-planted; each of the four modes is run on the tree (build / needed / verify / clean; after a build for the latter two in half of the cases) with recursive on/off and directory / file / mixed inputs; the snapshot diff (bytes, inode, mtime, directories) must be a subset of: outputs of the processed sources and their .txtpp dependencies plus targets named by their temp directives; verify: outputs untouched; clean: nothing created; no directory created or removed. A CLI sample under strace checks the same on the syscall write-set (catches write-then-restore). Non-trivial = the run changed at least one path or failed; distinct = distinct (project, mode, inputs).",
+        rule: "generated projects (successful and failing) with decoy files next to every source and output (x.bak, x~, truncated names, the bare stem, x.txtpp.orig.bak, same names in sub-directories; every decoy name is first checked not to be a txtpp source itself) and outputs of sources that are NOT processed (non-recursive runs, file inputs) pre-planted; each of the four modes is run on the tree (build / needed / verify / clean; after a build for the latter two in half of the cases) with recursive on/off and directory / file / mixed inputs; the snapshot diff (bytes, inode, mtime, directories) must be a subset of: outputs of the processed sources and their .txtpp dependencies plus targets named by their temp directives; verify: outputs untouched; clean: nothing created; no directory created or removed. A CLI sample under strace checks the same on the syscall write-set (catches write-then-restore). Non-trivial = the run changed at least one path or failed; distinct = distinct (project, mode, inputs). Later additions: non-UTF-8 names with decoys at the lossy spellings of every output; output paths that are symbolic links (verify, clean); temp paths with a backslash and verbatim includes of .txtpp files (literal-paths scenario); a temp directive naming an existing source; allowed temp targets computed from a lenient parse (directive lines only).",
         assumptions: &["allowed set: outputs of the sources selected by the harness's own reading of the input rule, all sources they reference through include/after lines (superset), and every `TXTPP#temp X` target in them (superset)"],
         floor: (300, 5000),
         shards: (16, 16),
